@@ -29,6 +29,7 @@ type opJ struct {
 	K string `json:"k"`
 	A int64  `json:"a,omitempty"`
 	B int64  `json:"b,omitempty"`
+	C int64  `json:"c,omitempty"`
 }
 
 type outJ struct {
@@ -212,7 +213,7 @@ func opCoq(o opJ) string {
 		return cq.C("OClear", cq.B(o.A != 0))
 	// priority-queue operations
 	case "qpush":
-		return cq.C("QPush", cq.Z(o.A), cq.Z(o.B))
+		return cq.C("QPush", cq.Z(o.A), cq.Z(o.B), cq.Z(o.C))
 	case "qfind":
 		return cq.C("QFind", cq.Z(o.A))
 	case "qpop":
@@ -303,6 +304,137 @@ func replayJB(c jbCase) jbCase {
 	}
 
 	return r.c
+}
+
+// pqRunner drives one PriorityQueue.
+type pqRunner struct {
+	q    *jitterbuffer.PriorityQueue
+	ids  idmap
+	c    pqCase
+	dead bool
+}
+
+func newPQ() *pqRunner { return &pqRunner{q: jitterbuffer.NewQueue(), ids: idmap{}} }
+
+func (r *pqRunner) do(o opJ) outJ {
+	q := r.q
+	res := guarded(func() outJ {
+		switch o.K {
+		case "qpush":
+			id := int64(len(r.ids))
+			p := newPacket(o.B, o.C, id)
+			r.ids[p] = id
+			q.Push(p, uint16(o.A)) //nolint:gosec
+
+			return outJ{K: "unit"}
+		case "qfind":
+			return r.ids.pktOut(q.Find(uint16(o.A))) //nolint:gosec
+		case "qpop":
+			return r.ids.pktOut(q.Pop())
+		case "qpopat":
+			return r.ids.pktOut(q.PopAt(uint16(o.A))) //nolint:gosec
+		case "qpopts":
+			return r.ids.pktOut(q.PopAtTimestamp(uint32(o.A))) //nolint:gosec
+		case "qclear":
+			q.Clear()
+
+			return outJ{K: "unit"}
+		case "qlen":
+			return outJ{K: "head", A: int64(q.Length())}
+		}
+		panic("unknown op " + o.K)
+	})
+	if res.K == "hang" || res.K == "panic" {
+		r.dead = true
+	}
+	r.c.Ops = append(r.c.Ops, o)
+	r.c.Outs = append(r.c.Outs, res)
+
+	return res
+}
+
+func replayPQ(c pqCase) pqCase {
+	r := newPQ()
+	for _, o := range c.Ops {
+		if res := r.do(o); res.K == "hang" || res.K == "panic" {
+			break
+		}
+	}
+
+	return r.c
+}
+
+func (c pqCase) toCase(buckets map[string]bool) cq.Case {
+	os := make([]string, len(c.Ops))
+	for i, o := range c.Ops {
+		os[i] = opCoq(o)
+	}
+	rs := make([]string, len(c.Outs))
+	npkt := 0
+	for i, o := range c.Outs {
+		rs[i] = outCoq(o)
+		if o.K == "pkt" {
+			npkt++
+		}
+	}
+	bs := make([]string, 0, len(buckets))
+	for b := range buckets {
+		bs = append(bs, b)
+	}
+	sort.Strings(bs)
+	if n := len(c.Outs); n > 0 && (c.Outs[n-1].K == "hang" || c.Outs[n-1].K == "panic") {
+		noteFailure(c.Outs[n-1].K, c, n-1)
+	}
+
+	return cq.Case{Coq: cq.T(cq.L(os), cq.L(rs)), JSON: c, Buckets: bs, Trivial: npkt < 1}
+}
+
+func genPQ(rnd *rand.Rand) (pqCase, map[string]bool) {
+	b := map[string]bool{}
+	r := newPQ()
+	base := int64(rnd.Intn(65536))
+	if rnd.Intn(3) == 0 {
+		base = 65530
+		b["prio-near-max"] = true
+	}
+	span := int64(3 + rnd.Intn(12))
+	var prios, tss []int64
+	n := 5 + rnd.Intn(50)
+	for i := 0; i < n && !r.dead; i++ {
+		var o opJ
+		pr := (base + int64(rnd.Intn(int(span)))) & 0xFFFF
+		ts := int64(rnd.Intn(8)) * 1000
+		switch k := rnd.Intn(20); {
+		case k < 9:
+			o = opJ{K: "qpush", A: pr, B: int64(rnd.Intn(65536)), C: ts}
+			for _, x := range prios {
+				if x == pr {
+					b["dup-prio"] = true
+				}
+			}
+			prios, tss = append(prios, pr), append(tss, ts)
+		case k < 11:
+			o = opJ{K: "qfind", A: pr}
+		case k < 13:
+			o = opJ{K: "qpop"}
+		case k < 16:
+			o = opJ{K: "qpopat", A: pr}
+		case k < 18:
+			o = opJ{K: "qpopts", A: ts}
+		case k < 19:
+			o = opJ{K: "qlen"}
+		default:
+			o = opJ{K: "qclear"}
+			if len(prios) > 0 {
+				b["clear-nonempty"] = true
+			}
+			prios, tss = nil, nil
+		}
+		res := r.do(o)
+		b[o.K+"-"+res.K] = true
+	}
+
+	return r.c, b
 }
 
 // ---- generator ----
@@ -525,11 +657,20 @@ func main() {
 		Name: "c18jb", Import: "IV.Check.C18Check", CaseType: "jb_case",
 		Checks: []string{"jb_mismatches", "jb_spec_failures"},
 	}
-	sets := []*cq.Set{jbs}
+	pqs := &cq.Set{
+		Name: "c18pq", Import: "IV.Check.C18Check", CaseType: "pq_case",
+		Checks: []string{"pq_mismatches", "pq_spec_failures"},
+	}
+	sets := []*cq.Set{jbs, pqs}
+	isPQ := func(ops []opJ) bool { return len(ops) > 0 && ops[0].K[0] == 'q' }
 	if o.Replay != "" {
 		var c jbCase
 		cq.LoadReplay(o.Replay, &c)
-		jbs.Cases = append(jbs.Cases, replayJB(c).toCase(map[string]bool{"replay": true}))
+		if isPQ(c.Ops) {
+			pqs.Cases = append(pqs.Cases, replayPQ(pqCase{Ops: c.Ops}).toCase(map[string]bool{"replay": true}))
+		} else {
+			jbs.Cases = append(jbs.Cases, replayJB(c).toCase(map[string]bool{"replay": true}))
+		}
 		cq.Write(o, "replay", sets, nil, fails)
 
 		return
@@ -540,7 +681,11 @@ func main() {
 		if len(c.Ops) == 0 {
 			continue
 		}
-		jbs.Cases = append(jbs.Cases, replayJB(c).toCase(map[string]bool{"corpus": true}))
+		if isPQ(c.Ops) {
+			pqs.Cases = append(pqs.Cases, replayPQ(pqCase{Ops: c.Ops}).toCase(map[string]bool{"corpus": true}))
+		} else {
+			jbs.Cases = append(jbs.Cases, replayJB(c).toCase(map[string]bool{"corpus": true}))
+		}
 	}
 	for _, c := range scripted() {
 		if hangs >= maxHangs {
@@ -553,8 +698,14 @@ func main() {
 		c, b := genJB(rnd)
 		jbs.Cases = append(jbs.Cases, c.toCase(b))
 	}
+	npq := o.Scale(600, 20000)
+	for i := 0; i < npq && hangs < maxHangs; i++ {
+		c, b := genPQ(rnd)
+		pqs.Cases = append(pqs.Cases, c.toCase(b))
+	}
 	extra := map[string]interface{}{"hangs_observed": hangs, "watchdog": watchdog.String()}
 	cq.Write(o, "jb: histories of 8..120 public-API calls (push in order/loss/late/duplicates of head, tail, any; all pops, peeks, "+
 		"SetPlayoutHead, Clear) for minimum start counts {0,1,2,3,5,8,50}; distinct by content; non-trivial = at least two pushes "+
-		"and one packet returned", sets, extra, fails)
+		"and one packet returned; pq: 5..54 direct PriorityQueue calls with priorities drawn from a window of 3..14 values "+
+		"(many duplicates), priority independent of the packet's own sequence number; non-trivial = one packet returned", sets, extra, fails)
 }
